@@ -177,6 +177,28 @@ def run(ctx):
                 corpus.setdefault(b"".join(out), "hello-chains")
     except Exception as e:
         raise Machinery("cannot build the client-hello chains: %s" % e)
+    # what a CLIENT decodes from an unauthenticated peer: server hellos signed by the sender's own root key (a client without a pinned key accepts the embedded
+    # root key, a client with one at least parses up to the signature) whose signed fields have other types and sizes than the honest ones
+    shello = {}
+    try:
+        K = impl.mod("crypto").EllipticCurvePrivateKey
+        root, eph = K.new(), K.new()
+        for name, fields in (("honest", [eph.getPublicKey().getBytes(), b"s" * 16, 77]),
+                             ("salt=int 2^20", [eph.getPublicKey().getBytes(), 2 ** 20, 77]), ("salt=int 2^26", [eph.getPublicKey().getBytes(), 2 ** 26, 77]),
+                             ("salt=int 2^31-1", [eph.getPublicKey().getBytes(), 2 ** 31 - 1, 77]), ("token=bytes", [eph.getPublicKey().getBytes(), b"s" * 16, b"t" * 64]),
+                             ("salt=list", [eph.getPublicKey().getBytes(), [2 ** 26, 2 ** 26], 77]), ("key=int", [2 ** 26, b"s" * 16, 77]), ("salt=-1", [eph.getPublicKey().getBytes(), -1, 77])):
+            tmp = io.BytesIO()
+            for v in fields:
+                S.serialize_value(tmp, v)
+            payload = tmp.getvalue()
+            body = io.BytesIO()
+            body.write(struct.pack(">H", C.HandshakeServerHelloMessage.type_id))
+            S.serialize_value(body, root.getPublicKey().getBytes())
+            S.serialize_value(body, payload)
+            S.serialize_value(body, root.sign(payload))
+            shello[body.getvalue()] = "self-signed-server-hello:" + name
+    except Exception as e:
+        raise Machinery("cannot build the self-signed server hellos: %s" % e)
     for cls in sorted(registered, key=lambda c: c.type_id):
         nf = len(getattr(cls, "_fields", ()) or ())
         for n in (0, 1, nf, nf + 1, 255, 2 ** 31 - 1, 2 ** 62, -1):
@@ -202,6 +224,11 @@ def run(ctx):
         conn = C.ServerClientConnection(ctxt, ("9.9.9.9", 9))
         rows.append(observe(S, data, lambda v: True, entry=conn._recvClientHello))
         meta.append(("server._recvClientHello:" + kind, data))
+    for data, kind in shello.items():
+        for pinned in (None, "other"):
+            key = None if pinned is None else impl.mod("crypto").EllipticCurvePrivateKey.new().getPublicKey()
+            rows.append(observe(S, data, lambda v: True, entry=lambda d, key=key: S.Serializable.loadb(d, server_public_key=key)))
+            meta.append(("client.loadb(server hello, pinned key=%s):%s" % (pinned, kind), data))
     wd = T.workdir("c14")
     try:
         path = os.path.join(wd, "rows.json")
